@@ -150,7 +150,12 @@ def generate(ctx):
             # the chunk-alignment branch and the combine branch are both taken)
             rechunk = rng.random() < 0.4 and n > 1
             if rechunk:
-                cut_per_col = [sorted(rng.sample(range(0, n + 1), rng.randint(0, 2))) for _ in names]
+                if rng.random() < 0.6:
+                    # the SAME number of chunks in every column, cut at the column's own rows
+                    k_ = rng.randint(1, 2)
+                    cut_per_col = [sorted(rng.sample(range(0, n + 1), k_)) for _ in names]
+                else:
+                    cut_per_col = [sorted(rng.sample(range(0, n + 1), rng.randint(0, 2))) for _ in names]
                 cols_pa = []
                 for nm, cuts in zip(names, cut_per_col):
                     whole = lists_df[nm].array._pa_array.combine_chunks()
